@@ -32,7 +32,7 @@ LEVEL_NOTE = ("Trusted: model/suites.py, sim/observe.py wire parsers, "
               "sim/lattice.py reading of the documented settings semantics. "
               "Dimensions not explored: virtual_hosts, TACK, certificate "
               "compression lists, ML-KEM/ML-DSA (absent), dhParams.")
-BUDGET = {"quick": 60, "thorough": 1200}
+BUDGET = {"quick": 300, "thorough": 1200}
 CHUNK = 8
 PROBES = ["both_complete", "both_failed", "one_sided", "tls13", "tls12",
           "legacy", "sslv3", "client_auth", "srp", "anon", "psk", "alpn",
